@@ -238,7 +238,7 @@ def gen_program(c, nmax=60):
           out.append(("csrw", CSR_XCEL0, rs()))
         else:
           out.append(("csrr", rdst(), CSR_XCEL0))
-      elif r < 0.955 and len(out) + 5 <= n:
+      elif r < 0.955:
         # hazard pattern: a manager read shortly before an always-taken branch whose shadow starts
         # with another manager / accelerator read or a load (stalled-and-squashed instruction in D)
         ra = c.choice(WORK)
@@ -254,7 +254,33 @@ def gen_program(c, nmax=60):
         # branch on the value just read from the manager (taken unless it is 0), or always taken
         out.append(("bne", ra, 0, 4 * (k + 1)) if c.random() < 0.7 else ("bne", BASE, 0, 4 * (k + 1)))
         out.extend(shadow)
-      elif r < 0.97 and len(out) + 4 <= n:
+      elif r < 0.965:
+        # hazard pattern: a branch that depends on a load (or an accelerator read) issued 0..2
+        # instructions earlier, arranged so that the stale register value and the loaded value decide the
+        # branch differently: stale == rb (not taken) / loaded != rb (taken), or the other way round
+        ra, rb = c.sample(WORK, 2)
+        recent.extend([ra, rb])
+        off = 4 * c.randrange(DATA_WORDS)
+        v = c.choice([0, 0, 1, 5])
+        if c.random() < 0.5:
+          # memory word is (almost surely) != v: stale equal, loaded different
+          out.append(("addi", rb, 0, v))
+          out.append(("addi", ra, 0, v))
+        else:
+          # memory word == rb (stored just before): stale different, loaded equal
+          out.append(("addi", rb, 0, v))
+          out.append(("sw", rb, BASE, off))
+          out.append(("addi", ra, 0, v + 1))
+        out.append(("lw", ra, BASE, off))
+        for _ in range(c.choice([0, 0, 0, 1, 2])):
+          out.append(("nop",) if c.random() < 0.5 else ("addi", 0, 0, 0))
+        k = c.randint(1, 2)
+        out.append(("bne", ra, rb, 4 * (k + 1)) if c.random() < 0.5 else ("bne", rb, ra, 4 * (k + 1)))
+        for _ in range(k):
+          out.append(c.choice([("csrw", CSR_PROC2MNGR, ra), ("addi", rdst(), rs(), c.randint(1, 8)),
+                               ("sw", rs(), BASE, 4 * c.randrange(DATA_WORDS))]))
+        out.append(("csrw", CSR_PROC2MNGR, c.choice([ra, rb])))
+      elif r < 0.975:
         k = c.randint(1, 3)
         body = straight_simple(k)
         out.append(("bne", rs(), rs(), 4 * (k + 1)))
